@@ -625,6 +625,12 @@ inline std::map<int, RankKey> refRank(World& W, const Invocation& inv,
       bool growthEl = growth >= minGrowth && gA;
       if (growth >= minGrowth && gA != gB)
         k.fuzzy = true;
+      // within one byte of the cut without being on it: rounding of the
+      // distributed protection decides
+      if (growth >= minGrowth &&
+          ((eff != cutA && fabsl(eff - cutA) < 1) ||
+           (eff != cutB && fabsl(eff - cutB) < 1)))
+        k.fuzzy = true;
       if (fabsl(growth - minGrowth) < 1e-6L * std::max<ld>(1, minGrowth))
         k.fuzzy = true;
       if (sizeEl)
@@ -638,7 +644,11 @@ inline std::map<int, RankKey> refRank(World& W, const Invocation& inv,
       out[c->inc] = k;
     }
   } else if (inv.plugin == "kill_by_swap_usage") {
-    ld thr = 1048576.0L; // threshold=1 (bare megabytes)
+    // Without a `threshold` argument the limit is the documented default "1"
+    // taken as the number 1 (one byte): the pinned tests kill cgroups with
+    // 20..60 bytes of swap under the default. Only a configured value goes
+    // through the size syntax (where a bare 1 means one megabyte).
+    ld thr = 1.0L;
     auto it = a.find("threshold");
     if (it != a.end()) {
       auto p = parseSizeRef(it->second, env.swapTotalMeminfo);
@@ -712,6 +722,13 @@ inline int cmpKeys(const RankKey& a, const RankKey& b, const std::string& plugin
     // below float resolution are treated as rounding (ties)
     if (i == 1 && plugin == "kill_by_memory_size_or_growth" && a.key[0] == 1)
       tol = std::max(fabsl(x), fabsl(y)) * 0x1p-20L;
+    // byte counts that involve the hierarchically distributed protection
+    // are fractional in the reference and whole bytes in any implementation:
+    // a difference below one byte is rounding, not an order
+    if (plugin == "kill_by_memory_size_or_growth" && i == 1 && a.key[0] != 1)
+      tol = std::max<ld>(tol, 1.0L);
+    if (plugin == "kill_by_swap_usage")
+      tol = std::max<ld>(tol, 1.0L);
     if (fabsl(x - y) <= tol)
       continue;
     return x > y ? 1 : -1;
